@@ -1056,6 +1056,9 @@ func genHistory(o *Out, rng *rand.Rand, id int, length int, profile string) []st
 			}
 		case x < 23:
 			p := g.plans[rng.Intn(len(g.plans))]
+			if _, exists := w.ccs[p.name]; !exists && profile == "mal" && g.fullTie(p.sel, p.v4, p.v6, p.hb) {
+				break // would tie, on all five sort keys, with a ClusterCIDR the robustness events created
+			}
 			g.do(g.ccLineSpelled(p))
 		case x < 28:
 			if ks := sortedMapKeys(w.ccs); len(ks) > 0 {
@@ -1524,6 +1527,34 @@ var malRanges6 = []string{"nonsense", "fd00::", "fd00::/129", "10.0.0.0/8", "10.
 var malHostBits = []int{-2147483648, -5, -1, 0, 1, 3, 4, 8, 9, 16, 17, 24, 28, 29, 32, 33, 64, 100, 104, 120, 127, 128, 129, 2147483647}
 var malNodeCIDRs = []string{"?garbage", "?10.0.0.0", "?10.0.0.0/33", "?fd00::/129", "4:ac100000/28", "6:fe800000000000000000000000000000/64", "4:a000000/8", "6:fd000000000000000000000000000000/8", "4:a000005/32", "6:fd000000000000000000000000000001/128"}
 
+// fullTie: an existing ClusterCIDR has the same selector key, the same per-node size and the same primary range
+func (g *gen) fullTie(sel *corev1.NodeSelector, v4, v6 string, hb int) bool {
+	keyOf := func(s *corev1.NodeSelector) string {
+		k, err := ipam.VerifNodeSelectorKey(&v1.ClusterCIDR{Spec: v1.ClusterCIDRSpec{NodeSelector: s.DeepCopy()}})
+		if err != nil {
+			return "!" + encRawSel(s)
+		}
+		return k
+	}
+	canonOf := func(a, b string) string {
+		p := a
+		if p == "" {
+			p = b
+		}
+		if _, n, err := parseCIDR(p); err == nil {
+			return n.String()
+		}
+		return p
+	}
+	k, pr := keyOf(sel), canonOf(v4, v6)
+	for _, c := range g.w.ccs {
+		if int(c.Spec.PerNodeHostBits) == hb && keyOf(c.Spec.NodeSelector) == k && canonOf(c.Spec.IPv4, c.Spec.IPv6) == pr {
+			return true
+		}
+	}
+	return false
+}
+
 // malEvent injects hostile object content (C12).
 func (g *gen) malEvent() {
 	rng := g.rng
@@ -1539,7 +1570,13 @@ func (g *gen) malEvent() {
 		}
 		v4, v6 = strings.TrimSpace(v4), strings.TrimSpace(v6)
 		hb := malHostBits[rng.Intn(len(malHostBits))]
-		g.do(fmt.Sprintf("ccAdd %s %d %s %s %s", name, hb, encFieldHB(v4, hb), encFieldHB(v6, hb), encRawSel(selPalette[rng.Intn(len(selPalette))])))
+		msel := selPalette[rng.Intn(len(selPalette))]
+		if g.fullTie(msel, v4, v6, hb) {
+			// equal to an existing ClusterCIDR on all five sort keys: their relative order is the heap's business
+			// (container/heap on ties), which the model does not claim to know
+			return
+		}
+		g.do(fmt.Sprintf("ccAdd %s %d %s %s %s", name, hb, encFieldHB(v4, hb), encFieldHB(v6, hb), encRawSel(msel)))
 	case 2: // node with pod CIDRs nobody can make sense of, or of a family / range no ClusterCIDR has
 		n := g.nodeNames()[rng.Intn(6)]
 		g.do(fmt.Sprintf("nodeAdd %s %s %s", n, labelPalette[rng.Intn(len(labelPalette))], malNodeCIDRs[rng.Intn(len(malNodeCIDRs))]))
